@@ -187,7 +187,7 @@ PROPS = {
     "C20": {
         "lean": ["IbcVerif.Props.C20"],
         "engines": [{"bin": "tmclient", "model": "tmclient", "model_exe": "tmmodel", "groups": ["update"],
-                     "n": (250, 2500), "monitor": (250, 4000), "workers": 8}],
+                     "n": (250, 800), "monitor": (250, 1200), "workers": 8}],
         "rule": TM_RULE,
         "trusted": TM_TRUSTED,
         "assumptions": ["HistOK (named hypothesis of cons_never_overwritten): when the migration-only entry point PruneAllExpiredConsensusStates runs, the client's stored timestamps increase with height - discharged for every history without pruneAll (histOK_without_pruneAll) and for every update/misbehaviour/prune history from the empty chain (never_overwritten_update_histories, via C23); open only for pruneAll after a recovery/upgrade that broke timestamp order",
@@ -251,9 +251,9 @@ PROPS = {
     "C22": {
         "lean": ["IbcVerif.Props.C22"],
         "engines": [{"bin": "tmclient", "model": "tmclient", "model_exe": "tmmodel", "groups": ["raw"],
-                     "n": (250, 3000), "monitor": (400, 6000), "workers": 8},
+                     "n": (250, 1000), "monitor": (400, 2000), "workers": 8},
                     {"bin": "tmclient", "model": "tmclient", "model_exe": "tmmodel", "groups": ["update"],
-                     "n": (150, 1500), "monitor": (100, 2000), "workers": 8}],
+                     "n": (150, 500), "monitor": (100, 700), "workers": 8}],
         "rule": "raw: seeded histories (10-50 ops) on a scratch 07-tendermint client store through the package's own store functions (setConsensusState+setConsensusMetadataWithValues, deleteConsensusState+deleteConsensusMetadata, pruneOldestConsensusState via verif hooks; PruneAllExpiredConsensusStates, GetNext/GetPreviousConsensusState, IterateConsensusStateAscending, Get* exported) with arbitrary (revision, height) drawn from a table of values whose big-endian bytes contain 0x2F / 0xFF / 0x00 (+-1), boundary and random 64-bit values, few revisions per history so that heights collide and neighbour; timestamps around now - trustingPeriod; plus the pure functions bigEndianHeightBytes, calculateNewTrustingPeriod (up to 2^62 ns), ParseChainID, IsExpired at the boundary. " + TM_RULE,
         "trusted": TM_TRUSTED,
         "assumptions": [],
@@ -262,7 +262,7 @@ PROPS = {
     "C23": {
         "lean": ["IbcVerif.Props.C23"],
         "engines": [{"bin": "tmclient", "model": "tmclient", "model_exe": "tmmodel", "groups": ["update"],
-                     "n": (250, 2500), "monitor": (250, 4000), "workers": 8}],
+                     "n": (250, 800), "monitor": (250, 1200), "workers": 8}],
         "rule": TM_RULE,
         "trusted": TM_TRUSTED,
         "assumptions": ["ts_mono_recover_partial / ts_mono_upgrade_partial: the substitute's / upgraded consensus timestamp exceeds every stored timestamp of the subject (ibc-go does not check it; ts_mono_all_ops_full_false is the kernel-checked witness; outside the property's quantifier, which is about header submissions)"],
@@ -283,7 +283,7 @@ PROPS = {
     "C21": {
         "lean": ["IbcVerif.Props.C21"],
         "engines": [{"bin": "tmclient", "model": "tmclient", "model_exe": "tmmodel", "groups": ["update", "recover", "upgrade"],
-                     "n": (120, 1500), "monitor": (120, 2500), "workers": 8}],
+                     "n": (120, 500), "monitor": (120, 800), "workers": 8}],
         "rule": TM_RULE + TM_RULE_RU,
         "trusted": TM_TRUSTED + ["consumers outside the 02-client keeper (03-connection ConnOpenInit, 04-channel ChanOpenInit/ChanCloseInit/SendPacket, 04-channel/v2 sendPacket, ante decorator, rate-limiting, gRPC query) call GetClientStatus themselves: the status function is proved exact here, their handlers are modelled by the chain cluster; all other handshake/packet steps reach the client only through Keeper.VerifyMembership/VerifyNonMembership (checked by grep of the call sites, listed in Props/C21.lean)"],
         "assumptions": ["WInv (world invariant) - proved for every reachable world"],
@@ -292,11 +292,11 @@ PROPS = {
     "C24": {
         "lean": ["IbcVerif.Props.C24", "IbcVerif.Props.C24Power"],
         "engines": [{"bin": "tmclient", "model": "tmclient", "model_exe": "tmmodel", "groups": ["verify"],
-                     "n": (300, 4000), "monitor": (100, 1000), "workers": 8},
+                     "n": (300, 1200), "monitor": (100, 400), "workers": 8},
                     {"bin": "tmclient", "model": "tmclient", "model_exe": "tmmodel", "groups": ["power"],
-                     "n": (2000, 40000), "monitor": (0, 0), "workers": 8},
+                     "n": (2000, 15000), "monitor": (0, 0), "workers": 8},
                     {"bin": "tmclient", "model": "tmclient", "model_exe": "tmmodel", "groups": ["update"],
-                     "n": (100, 1000), "monitor": (0, 0), "workers": 8}],
+                     "n": (100, 400), "monitor": (0, 0), "workers": 8}],
         "rule": "verify: seeded histories on a real client whose trusted next-validator set V1 has unequal powers ({5,4,3,2,1}, {10,1,1}, {7,5,2,1}, {3,3,3}, {1}, ...) and trust level 1/3, 1/2, 2/3 or 1; headers (adjacent and non-adjacent, signed by V1 or by a changed set V2 sharing some validators) derived from honestly signed ones by one mutation each: random / single / all-but-one absent signers, corrupted signatures, trusted validators replaced by V2 / power altered / proper subset / nil, unknown trusted height, height <= trusted, other revision, other chain name, time <= trusted time, time at now+drift-1ns/=/+1ns, trusted state at expiry-1ns/=/+1ns, validator set not matching its hash or nil, adjacent header with a foreign set, signed field altered after signing; misbehaviour pairs with the same mutations. The verdicts of light.Verify / VerifyCommitLight / VerifyCommitLightTrusting are computed by the harness by calling CometBFT; for every such header an lv.verify case additionally compares the hand model of light.Verify (fed with the harness's symbolic knowledge of who signed what) with the real light.Verify. power: validator sets of 1-7 validators with powers from {1,2,3,5,10,33,34,100}, commits with good / absent / nil / corrupted / wrong-chain / wrong-address / duplicated signatures, evaluated by the real VerifyCommitLight and VerifyCommitLightTrusting (trust levels 1/3, 1/2, 2/3, 3/4, 1) against the hand model over symbolic signatures. " + TM_RULE,
         "trusted": TM_TRUSTED + ["CometBFT's verification (signature checks, >2/3 of the header's own set, trust level of the trusted set, trusting period, clock drift, monotone time, chain id in the sign bytes) is NOT proved: it is the parameter `valid` of the model; the harness evaluates it with the real library on honestly signed and mutated headers, so what is tied is ibc-go's wiring (which consensus state, period, clock, trust level, chain id it passes) and its own checks"],
         "assumptions": ["valid / v1 / v2: verdicts of light.Verify and VerifyCommitLightTrusting (universally quantified in Props/C24.lean)",
@@ -306,7 +306,7 @@ PROPS = {
     "C25": {
         "lean": ["IbcVerif.Props.C25"],
         "engines": [{"bin": "tmclient", "model": "tmclient", "model_exe": "tmmodel", "groups": ["recover", "upgrade"],
-                     "n": (250, 3000), "monitor": (250, 4000), "workers": 8}],
+                     "n": (250, 1000), "monitor": (250, 1500), "workers": 8}],
         "rule": TM_RULE_RU,
         "trusted": TM_TRUSTED + ["ICS-23 membership verification of the upgraded client / consensus state is a parameter; the harness computes it with 23-commitment's VerifyMembership on the root of the client's latest consensus state, the path built from the CLIENT's upgrade path and latest height, and the bytes the specification says are committed (ZeroCustomFields of the submitted client; the submitted consensus state)",
                                   "calculateNewTrustingPeriod is modelled with LegacyDec's 18-decimal round-half-even quotient (tied by the calcTP correspondence up to 2^62 ns)",
@@ -405,7 +405,7 @@ PROPS = {
         "trusted": ["as C30; Go strings as List Char (ASCII generators); hash parameter"],
         "assumptions": ["as C30 for return_leg_releases_original (Inv and EscInv hold along every lifecycle-respecting history: C30/C31 theorems)",
                         "the receiving side does not object for its own reasons: receiving enabled, receiver decodable and not blocked, coin denomination valid for the SDK (sdk.NewCoin)"],
-        "level_text": "partial: PROVED for every base Transfer accepts (hop-free, any number of '/' segments) and every trace depth: the voucher path re-parses to the voucher on both chains, the sender burns, and the origin's receive SUCCEEDS and releases exactly the packet amount of the original coin from that channel's escrow to the receiver (escrow sufficiency derived from the conservation invariant). That MsgTransfer accepts the voucher for sending back (store lookup + ValidateBasic of hop identifiers) is covered at the denomination level and by the harness monitor, not as a single liveness theorem; sending back over the v2 alias is refused by design for bases containing '/'. The two pre-fix refutations are repaired by 4b2f809 and replayed",
+        "level_text": "full for v1 channels (the channel the voucher was received over), for every base Transfer accepts (hop-free, any number of '/' segments) and every trace depth: (1) the voucher path re-parses to the voucher on both chains and the sender burns (roundtrip_denominations); (2) MsgTransfer of the held voucher over its channel SUCCEEDS whenever the general send conditions hold, TokenFromCoin resolving the stored voucher (voucher_send_back_accepted, stored_voucher_is_found); (3) on arrival the origin's receive SUCCEEDS and releases exactly the packet amount of the original coin from that channel's escrow to the receiver, escrow sufficiency being derived from the conservation invariant (return_leg_releases_original). Sending back over the v2 alias is refused by design for bases containing '/'. The two pre-fix refutations (hop-like native base; stuck voucher of a two-segment base) are repaired by 4b2f809, kept as regression theorems and replayed on the real code",
     },
 }
 
@@ -506,3 +506,95 @@ PROPS.update({
         "level_text": "full: successful sends on an id (v1 channel = v2 alias, or v2 client) return exactly 1,2,3,... over all histories with v1/v2 interleaved; each writes exactly one commitment and bumps the shared counter, nothing else; every guard of SendPacket (OPEN, Active, non-zero height, not elapsed) and of v2 sendPacket (block-time window incl. T>=2^63 wrap, client guards) is necessary for success; failures change nothing. Monitor: returned sequences per id, commitments per send.",
     },
 })
+
+PROPS.update({
+    "C09": {
+        "lean": ["IbcVerif.Props.C09"],
+        "engines": [chain_engine(["core", "ordered"], n=(120, 2000), monitor=(350, 5000))],
+        "rule": CHAIN_RULE + "; the v1 mock application is scripted per receive to write k in 0..3 keys of an application store and then return a success ack / error ack / nothing (async) / an ack it also wrote itself / an empty ack",
+        "trusted": CHAIN_TRUSTED + ["the application is a parameter: it is characterised by what it returned and how many keys it wrote on the context it was given (any real app is covered by the quantifier, only the mock app is exercised); middleware stacks other than the mock app are not exercised by this engine"],
+        "assumptions": [],
+        "level_text": "full for core RecvPacket: error ack => application store unchanged, receipt / next-receive counter and the error ack written; success or async => writes persist; the result is independent of what was written before failing; an ack-write failure reverts the whole tx. Monitor: app-store delta of every receive by ack kind.",
+    },
+    "C10": {
+        "lean": ["IbcVerif.Props.C10"],
+        "engines": [chain_engine(["v2", "core"], n=(120, 2000), monitor=(350, 5000))],
+        "rule": CHAIN_RULE + "; group 'v2' sends/receives packets with 1-4 payloads on the two mock v2 apps, each payload independently success / failure / async / status NONE, with k writes, ack bytes possibly empty or equal to the error sentinel",
+        "trusted": CHAIN_TRUSTED,
+        "assumptions": [],
+        "level_text": "full: any failing payload => no application write persists and the ack is exactly the single sentinel (later payloads not executed); all succeed => every write persists, one app ack per payload in order, none the sentinel; async only for single-payload packets; writeAcknowledgement validates non-emptiness, sentinel-only-alone and the length. Monitor: app-store delta and ack value per receive.",
+    },
+    "C12": {
+        "lean": ["IbcVerif.Props.C12"],
+        "engines": [chain_engine(["handshake", "core"], n=(120, 2000), monitor=(350, 5000))],
+        "rule": CHAIN_RULE + "; group 'handshake' issues channel/connection handshake and close messages in any order, duplicated, on channels in any state, with wrong hops / orderings / versions and failing proofs or callbacks",
+        "trusted": CHAIN_TRUSTED,
+        "assumptions": ["single-chain part only: 'both ends OPEN agree' and 'the counterparty end really was in the matching state' need the two-chain world model with honest light clients (not covered by this check); here the proof verdict is an input and the theorems show it is required"],
+        "level_text": "partial: (proved, all histories) channel ends change only INIT->OPEN, TRYOPEN->OPEN, non-CLOSED->CLOSED; CLOSED terminal; ordering/port/hops immutable, version and counterparty channel id change only at ACK; new ends start INIT/TRYOPEN under a fresh id; TRY/ACK/CONFIRM/CLOSE-CONFIRM succeed only with a positive proof verdict on an Active client and (TRY/ACK/CONFIRM) an OPEN connection. Not proved here: two-chain agreement. Monitor: per-step channel transitions.",
+    },
+    "C46": {
+        "lean": ["IbcVerif.Props.C46"],
+        "engines": [chain_engine(["auth", "v2"], n=(120, 2000), monitor=(350, 5000))],
+        "rule": CHAIN_RULE + "; group 'auth' issues RecoverClient, IBCSoftwareUpgrade, UpdateClientParams, UpdateConnectionParams, RegisterCounterparty, UpdateClientConfig, DeleteClientCreator, UpdateClient, CreateClient with signers {authority, creator, two others}, relayer allow-lists over {alice,bob,carol} (also on aliases), allowed-client lists {*},{99-verif},{98-verif},{07-tendermint},{99-verif,98-verif}, and v2 packet messages under those configurations",
+        "trusted": CHAIN_TRUSTED + ["sdk.ValidateAuthority with an unset consensus-params authority compares against the keeper authority (SDK code); signers are symbolic names mapped to fixed bech32 addresses"],
+        "assumptions": ["wasm Store/Remove/Migrate and rate-limit administration are outside this engine (other clusters)"],
+        "level_text": "full as decision logic for the core handlers: exact accept conditions of UpdateClientParams / UpdateConnectionParams / RegisterCounterparty (creator, once; sets nextSend=1) / UpdateClientConfig / DeleteClientCreator; RecoverClient and IBCSoftwareUpgrade need the authority; v2 Recv (dest id) / Ack / Timeout (source id) and UpdateClient are refused for relayers outside a non-empty allow-list; clients of a type outside the allowed list cannot be created, routed, verified against or updated. Monitor: accept/reject per (operation, signer, configuration).",
+    },
+})
+
+# shared entries: append the chain halves
+PROPS["C13"]["lean"] = ["IbcVerif.Props.C13"] + PROPS["C13"]["lean"]
+PROPS["C13"]["engines"] = [chain_engine(["handshake", "core"], n=(120, 2000), monitor=(350, 5000))] + PROPS["C13"]["engines"]
+PROPS["C13"].setdefault("trusted", [])
+PROPS["C13"]["trusted"] = PROPS["C13"]["trusted"] + CHAIN_TRUSTED
+PROPS["C13"].setdefault("assumptions", [])
+PROPS["C13"]["assumptions"] = PROPS["C13"]["assumptions"] + ["handshake half is single-chain: the proof verdict is an input (required for OPEN); two-chain agreement needs the world model"]
+PROPS["C13"]["level_text"] = (PROPS["C13"].get("level_text", "") + " | handshake (chain engine): connection ends change only INIT->OPEN (single supported version fixed) / TRYOPEN->OPEN, client/counterparty client/prefix/delay immutable, OPEN absorbing over all histories; new ends INIT/TRYOPEN under a fresh id, never on 09-localhost; ConnOpenInit/Try with the localhost client are refused; the genesis localhost connection stays OPEN and untouched; TRY/ACK/CONFIRM need a positive proof verdict; a channel opens only on a connection with exactly one version containing the ordering.").strip(" |")
+PROPS["C15"]["lean"] = PROPS["C15"]["lean"] + ["IbcVerif.Props.C15Counters"]
+PROPS["C15"]["engines"] = PROPS["C15"]["engines"] + [chain_engine(["handshake", "auth"], n=(100, 1500), monitor=(300, 4000))]
+PROPS["C15"].setdefault("trusted", [])
+PROPS["C15"]["trusted"] = PROPS["C15"]["trusted"] + CHAIN_TRUSTED
+PROPS["C15"]["level_text"] = (PROPS["C15"].get("level_text", "") + " | counters (chain engine): over all histories incl. failed attempts every channel / connection / client identifier is generated at most once; stored ids are below their counter; counters never decrease; formatted ids are injective in the counter.").strip(" |")
+
+
+# world cluster, relay group (C05, C06): real two-chain engine, facts-level model Model/Relay.lean
+RELAY_RULE = ("world/relay: one history = two real ibctesting chains (v1 UNORDERED channel, v1 ORDERED channel, v2 client pair, real 07-tendermint clients, real IAVL proofs); "
+              "3 packets per path A->B with varied data (success / error acknowledgements, multi-payload v2) and timeouts (height-only, timestamp-only, both, some close to the destination's clock); "
+              "for every packet and phase (receive on B, acknowledgement on A) the hand-built valid message and every single-field mutation of it are submitted as transactions: data, timeout height/timestamp (+1, -1, zero, swapped, far), "
+              "sequence (+1, -1, 0, max, another sent packet's), source/destination port/channel/client (another existing one, unknown, malformed, suffixed, swapped), v2 payload fields and payload list (reversed, truncated, extended, empty), "
+              "proof bytes (bit flip, truncated, appended, empty, random), proof for another key (receipt, acknowledgement, commitment, channel end, next-sequence, another sequence), "
+              "proof height (every other stored consensus height with the proof rebuilt or kept, heights without a consensus state, above the client's latest, zero, next revision), "
+              "ack bytes (flip, append, truncate, empty, another packet's, non-canonical JSON, forged error/result), v2 app-ack list (flip, reverse, truncate, extend, merge two elements, empty element, sentinel error), "
+              "signer (another relayer, signer/signature mismatch, malformed address); plus random two-field mutations, replays after the packet was handled, a later packet first (ORDERED: out of order), "
+              "and state variations applied on the executing chain (channel INIT/TRYOPEN/CLOSED/UNINITIALIZED, counterparty port/channel changed, ordering NONE, missing connection, connection INIT/TRYOPEN/UNINITIALIZED, delay period 1ns/20s/1h, missing client, frozen client, recvStartSequence at/above the sequence, v2 counterparty changed, v2 merkle prefix changed, relayer allow-list), and a jump past the trusting period (expired clients). "
+              "Facts are read from the executing chain before the transaction; provenValue is read from the counterparty's height-pinned multistore at the version the proof was built from; the verdict is ok (tx ok, state changed) / noop (tx ok, nothing changed) / err:<class from the ABCI codespace+code>. "
+              "A case is non-trivial when the transaction did not fail; distinct = distinct canonical request")
+RELAY_TRUSTED = ["HonestClient / ICS-23 soundness: `ProofFacts.proves` DEFINES 'the membership proof verifies' as: the submitted bytes are an uncorrupted proof queried at the message's proof height for exactly the merkle path the handler builds, and the counterparty's store holds exactly the value the handler derives -- CometBFT light-client verification (C24) and ICS-23 (C18 hypotheses) are what make a real client behave like this; the engine confirms it on real 07-tendermint clients and IAVL proofs on every run",
+                 "SDK machinery outside ibc-go: baseapp calls msg.ValidateBasic before the ante handler; the ante handler rejects a transaction not signed by msg.Signer (fact sigOK); a failed message reverts the whole transaction",
+                 "external lookups enter as facts read by the harness through ibc-go's own getters: port router (C48), client status (C21), consensus state / processed time+height presence (C20, C22), v2 relayer allow-list, bech32 parsing of the signer, protobuf decodability of the proof bytes, JSON canonical form of a v1 acknowledgement",
+                 "application callbacks succeed and acknowledge synchronously (the harness's mock applications do; callback failure / async acks: chain engine C09-C11)",
+                 "identifiers and payload strings are ASCII in the generator (strings.TrimSpace modelled on ASCII white space); v2 aliases are resolved by the harness (no alias in the generated environments)"]
+
+PROPS.update({
+    "C05": {
+        "lean": ["IbcVerif.Props.C05"],
+        "engines": [{"bin": "world", "model": "purefn", "groups": ["relay"], "n": (1, 6), "monitor": (1, 1), "workers": 8, "timeout": 3300}],
+        "rule": RELAY_RULE,
+        "trusted": RELAY_TRUSTED,
+        "assumptions": ["HonestClient (as a definition: ProofFacts.proves)", "hlen: the hash has 32-byte outputs (SHA-256: Sha256.sha256_length)", "binding statements are in collision-extraction form (no injectivity assumption)"],
+        "level_text": "full for the decision: recv_v1/v2_success_iff and _noop_iff characterise exactly when a receive transaction succeeds / is a NOOP as the explicit conjunction (well-formed signed message, route, channel+connection OPEN and packet from their counterparty [v2: registered counterparty = source client, relayer allowed], own height/time strictly before the timeout, client Active with consensus state at the proof height and delay passed, counterparty store holds CommitPacket(packet) at exactly PacketCommitmentKey(source ids, sequence), not yet received / in order); recv_binds_packet_v1/v2, recv_*_same_proof_same_packet, recv_v1_mutant_rejected: any change of data, timeout, sequence or source identifiers (v2: also destination client and the whole payload list) is rejected unless the counterparty committed exactly that, or a SHA-256 collision is exhibited (uses C07 + C16). Order of checks and error classes are part of the model and replayed against real two-chain executions on every run. The 'a failed receive changes no state' half is proved on the L3 chain model (IbcVerif.C01.noop_or_error_is_identity, chain engine) and monitored here by a store diff (IBC store + application store) around every failed or NOOP transaction. Note (documented behaviour, not a defect): v2 answers an already-received packet NOOP before looking at the proof; v1 only after the proof verified.",
+    },
+    "C06": {
+        "lean": ["IbcVerif.Props.C06"],
+        "engines": [{"bin": "world", "model": "purefn", "groups": ["relay"], "n": (1, 6), "monitor": (1, 1), "workers": 8, "timeout": 3300}],
+        "rule": RELAY_RULE,
+        "trusted": RELAY_TRUSTED,
+        "assumptions": ["HonestClient (as a definition: ProofFacts.proves)", "hlen: the hash has 32-byte outputs (SHA-256)", "binding statements are in collision-extraction form"],
+        "level_text": "full for the decision: ack_v1/v2_success_iff and _noop_iff (processed <=> source channel+connection OPEN and destination = counterparty [v2: registered counterparty = destination client], stored commitment non-empty and equal to CommitPacket(packet), v1 canonical-JSON check, client Active + consensus state + delay, counterparty store holds CommitAcknowledgement(bytes / ordered app-ack list) at exactly PacketAcknowledgementKey(destination ids, sequence), ORDERED: sequence = nextSequenceAck; NOOP <=> no stored commitment, decided before the proof is looked at); ack_binds_v1/v2, ack_*_packet_is_the_committed_one, ack_*_forged_not_processed: altered ack bytes, a reordered / truncated / extended / re-split v2 app-ack list, another packet's ack, another destination or sequence are never processed, or a SHA-256 collision is exhibited (C07 + C16). The 'a rejected acknowledgement changes no state' half: IbcVerif.C01.noop_or_error_is_identity (chain engine) + store-diff monitor here; the OnAcknowledgementPacket monitor compares every callback argument with what the destination application wrote.",
+    },
+})
+
+# C46: administration half (coordinator): rate-limit Add/Update/Remove/Reset through the real msg server
+PROPS["C46"]["lean"] = PROPS["C46"]["lean"] + ["IbcVerif.Props.C46Admin"]
+PROPS["C46"]["engines"] = PROPS["C46"]["engines"] + [{"bin": "world", "model": "purefn", "groups": ["authority"], "n": (3, 60), "monitor": (2, 40), "workers": 8}]
+PROPS["C46"]["assumptions"] = ["wasm StoreCode / RemoveChecksum / MigrateContract start with the same sdk.ValidateAuthority call (08-wasm is a separate Go module whose keeper needs a wasm VM; the gate is covered by the generic Admin.handler theorems and by reading the three call sites, not by an engine)"]
